@@ -91,10 +91,12 @@ def classify(files, rr):
     panic = " ".join(rr.get("panic") or [])
     if "should not create decoders for semantic types" in panic: return "semantic_type_reaches_printer"
     if "Default export already set" in panic: return "two_default_exports_panic"
+    if "type with args name conflict" in panic: return "generic_instance_names_collide"
     if rr.get("outcome") == "abort" and "overflowed its stack" in rr.get("stderr", ""):
         if re.search(r"export\s*\*\s*from", text): return "export_star_cycle_stack_overflow"
         if has_unguarded_cycle(text): return "alias_cycle_without_constructor_stack_overflow"
         if re.search(r"type\s+(\w+)\s*<[^>]+>\s*=[^;]*\b\1\s*<", text): return "polymorphic_recursion_stack_overflow"
+        if re.search(r"import\(\s*[\"']\./(\w+)[\"']\s*\)\s*[;}\]|&,)]", text): return "self_import_type_stack_overflow"
         m = re.search(r"const\s+(\w+)\s*=\s*([^;]*);", text)
         if m and re.search(r"\b%s\b" % re.escape(m.group(1)), m.group(2)) and re.search(r"typeof\s+%s\b" % re.escape(m.group(1)), text):
             return "typeof_self_referential_const_stack_overflow"
@@ -182,6 +184,26 @@ def check(run):
         clash = r.choice(["", "", 'const theme = { current: d };\n', 'const retries = "r";\n', 'const inner = [d];\n', 'const base = d;\n'])
         entry = 'import d from "./settings";\n%sexport type T = %s;\nparse.buildParsers<{ T: T }>();' % (clash, use)
         projects.append([("entry.ts", entry), ("settings.ts", lib)]); tags.append("default-export-expression")
+    # mapped types over an empty key set
+    for i in range(10 if quick else 150):
+        ks = r.choice(["never", "keyof {}", 'Exclude<"a" | "b", "a" | "b">', "Empty", 'Extract<"a", "b">', 'keyof Record<never, string>'])
+        v = r.choice(["string", "K", "{ v: K }", "boolean[]"])
+        form = r.choice(["direct", "generic", "imported"])
+        if form == "direct":
+            files = [("entry.ts", "type Empty = never;\nexport type T = { [K in %s]: %s };\nparse.buildParsers<{ T: T }>();" % (ks, v))]
+        elif form == "generic":
+            files = [("entry.ts", "type Empty = never;\nexport type Flags<Q extends string> = { [K in Q]: %s };\nexport type T = { f: Flags<%s>; n: number };\nparse.buildParsers<{ T: T }>();" % (v, ks if ks != "keyof {}" else "never"))]
+        else:
+            files = [("entry.ts", 'import { Empty } from "./keys";\nexport type T = { [K in Empty]: %s };\nparse.buildParsers<{ T: T }>();' % v), ("keys.ts", "export type Empty = never;")]
+        projects.append(files); tags.append("mapped-type-over-no-keys")
+    # declarations exported as default through an export list, imported as default
+    for i in range(12 if quick else 200):
+        decl, use = r.choice([('enum E { A = "a", B = "b" }', "E"), ('const E = "k" as const;\ntype E = { k: string };', "E"),
+                              ("type E = { a: number };", "E"), ("interface E { a: string }", "E"), ('const E = { a: 1 };', "typeof E"),
+                              ('enum E { A = "a" }', "typeof E.A")])
+        extra = r.choice(["", "", "\nexport const other = 1;", "\nexport type Other = string;"])
+        projects.append([("entry.ts", 'import E from "./t";\nexport type X = %s;\nparse.buildParsers<{ X: X }>();' % use),
+                         ("t.ts", decl + "\nexport { E as default };" + extra)]); tags.append("export-list-default")
     # import types with type arguments: the arguments are written in the importing file (local names, unsupported keywords)
     for i in range(16 if quick else 400):
         pad = "// " + "y" * r.randrange(0, 300) + "\n" * r.randrange(1, 4)
